@@ -187,8 +187,8 @@ const (
 type decision int
 
 const (
-	undecided    decision = iota // must not have returned
-	mayFail                      // some key can no longer reach quorum, but no family exceeded and not all its replicas answered
+	undecided decision = iota // must not have returned
+	mayFail                   // some key can no longer reach quorum, but no family exceeded and not all its replicas answered
 	mustFail
 	mustSucceed
 )
@@ -291,6 +291,8 @@ func runStep(t *testing.T, run *vt.Run, c vt.CaseID, sc stepCase) {
 		IsClientError: func(err error) bool { var ce clientErr; return errors.As(err, &ce) },
 	}
 	var pool chan func()
+	startGate := make(chan struct{})
+	opened := false
 	switch sc.Spawner {
 	case "counting":
 		opts.Go = func(f func()) { spawned.Add(1); go f() }
@@ -304,6 +306,24 @@ func runStep(t *testing.T, run *vt.Run, c vt.CaseID, sc stepCase) {
 			}()
 		}
 		opts.Go = func(f func()) { spawned.Add(1); pool <- f }
+	case "held":
+		// a spawner that queues work: nothing handed to it starts before the harness opens the gate, which it
+		// does after the cancellation when the case cancels before the first release (the caller's context ends
+		// between hand-over and start), otherwise right away
+		opts.Go = func(f func()) {
+			spawned.Add(1)
+			go func() {
+				<-startGate
+				f()
+			}()
+		}
+	}
+	open := func() {
+		if !opened {
+			opened = true
+			close(startGate)
+			synctest.Wait()
+		}
 	}
 	callback := func(d ring.InstanceDesc, indexes []int) error {
 		rec := &callRec{id: d.Id, indexes: append([]int(nil), indexes...), start: seq.Add(1)}
@@ -347,6 +367,9 @@ func runStep(t *testing.T, run *vt.Run, c vt.CaseID, sc stepCase) {
 		default:
 		}
 	}
+	if sc.Spawner == "held" && sc.CancelAt != 0 {
+		open()
+	}
 	poll()
 	// every selected replica is called once with exactly its indexes
 	checkCalls := func(final bool) {
@@ -372,7 +395,7 @@ func runStep(t *testing.T, run *vt.Run, c vt.CaseID, sc stepCase) {
 			}
 		}
 	}
-	if len(sh.Keys) > 0 && returned == nil {
+	if len(sh.Keys) > 0 && returned == nil && (sc.Spawner != "held" || opened) {
 		checkCalls(true)
 	}
 	answered := map[string]int{}
@@ -444,6 +467,9 @@ func runStep(t *testing.T, run *vt.Run, c vt.CaseID, sc stepCase) {
 			}
 			cancelled = true
 		}
+		if sc.Spawner == "held" {
+			open()
+		}
 		close(gates[id])
 		synctest.Wait()
 		answered[id] = sc.Outcomes[id]
@@ -461,6 +487,9 @@ func runStep(t *testing.T, run *vt.Run, c vt.CaseID, sc stepCase) {
 		judge(fmt.Sprintf("after completion %d (%s)", step, id))
 	}
 	// all replica calls have returned: it must have returned, cleanup exactly once and last
+	if sc.Spawner == "held" {
+		open()
+	}
 	synctest.Wait()
 	poll()
 	if returned == nil {
@@ -586,7 +615,10 @@ func TestC10(t *testing.T) {
 				if rng.IntN(4) == 0 {
 					cancelAt = rng.IntN(n + 1)
 				}
-				sp := []string{"", "", "counting", "pool"}[rng.IntN(4)]
+				sp := []string{"", "", "counting", "pool", "held"}[rng.IntN(5)]
+				if sp == "held" && rng.IntN(2) == 0 {
+					cancelAt = 0
+				}
 				synctest.Test(t, func(t *testing.T) {
 					sh := mk()
 					if sh == nil {
